@@ -7,5 +7,5 @@ trap "git -C /repo worktree remove --force $WT" EXIT
 (cd $WT && git apply $PATCH) || { echo "patch does not apply"; exit 2; }
 echo "== test suite with patch"; (cd $WT && PYTHONPATH=$WT/src timeout 900 /venv/bin/python -m pytest -q -p no:cacheprovider tests 2>&1 | tail -1)
 echo "== author's self-check with patch"; (cd $WT && PYTHONPATH=$WT/src TQDM_DISABLE=1 timeout 1200 /venv/bin/python $CHK >/tmp/harm_chk_$$.log 2>&1; echo "exit=$?"; tail -2 /tmp/harm_chk_$$.log | cut -c1-200)
-for p in $PROPS; do echo "== check $p"; VERIF_REPO=$WT /verif/check $p 2>&1 | grep -v "^KNOWN" | grep "VIOLATION\|^\[C\|broken machinery\|Traceback" | head -5; done
+for p in $PROPS; do echo "== check $p"; VERIF_REPO=$WT ${VERIF_DIR:-/verif}/check $p 2>&1 | grep -v "^KNOWN" | grep "VIOLATION\|^\[C\|broken machinery\|Traceback" | head -5; done
 rm -f /tmp/harm_chk_$$.log
